@@ -876,6 +876,19 @@ impl<'a> Interp<'a> {
         }
     }
 
+    /// the sequence element an op belongs to: itself for an insert, the element it updates otherwise
+    pub fn elem_of_op(&self, o: &Oid) -> Option<Oid> {
+        let op = self.ctx.ops[*self.ctx.index.get(o)?];
+        if op.insert {
+            Some(op.id.clone())
+        } else {
+            match &op.key {
+                KeyRef::Elem(e) => Some(e.clone()),
+                _ => None,
+            }
+        }
+    }
+
     pub fn has_op(&self, o: &Oid) -> bool {
         self.ctx.index.contains_key(o)
     }
